@@ -358,6 +358,29 @@ func (e *Engine) lookupNative(fi *FnInfo) *Native {
 		return simple(func(e *Engine, s *State, gi int, args []Value) Value { return args[0] })
 	case "github.com/pkg/errors.callers":
 		return simple(func(e *Engine, s *State, gi int, args []Value) Value { return Ptr{} })
+	case "(google.golang.org/grpc/mem.SliceBuffer).Free":
+		// Pooling model: once a codec buffer has been freed its bytes belong to the pool and may be
+		// overwritten by any later encode - they become arbitrary (fresh unconstrained symbols).
+		return simple(func(e *Engine, s *State, gi int, args []Value) Value {
+			sl, ok := args[0].(Slice)
+			if !ok || sl.obj == 0 || sl.ln == 0 {
+				return nil
+			}
+			g := s.wg(gi)
+			base := fmt.Sprintf("freed@%s#%d", g.id, g.nnondet)
+			g.nnondet++
+			vals := make([]Value, sl.ln)
+			for i := range vals {
+				t := ts.Var(fmt.Sprintf("%s[%d]", base, i), 8)
+				e.registerVar(t)
+				if e.replay != nil {
+					t = ts.Const(8, e.replay.Model[t.name])
+				}
+				vals[i] = t
+			}
+			e.writeElems(s, sl, 0, vals)
+			return nil
+		})
 	case "runtime.Gosched":
 		return visible(func(e *Engine, s *State, gi int, args []Value) Value { return nil })
 	case "runtime.KeepAlive":
